@@ -128,6 +128,37 @@ def _collect(job, h, timeout):
     return ['items', out]
 
 
+def _collect_all(h, timeout):
+    """every item of an imap iterator with its arrival time: a failing item
+    does not end the consumer (the iterator goes on with the remaining parts)"""
+    from billiard.exceptions import TimeoutError as BTimeout
+    out = []
+    done = threading.Event()
+
+    def drain():
+        while True:
+            try:
+                v = h.next(timeout)
+            except StopIteration:
+                break
+            except BTimeout:
+                out.append(['timeout', None, None, time.monotonic()])
+                break
+            except BaseException as exc:          # noqa
+                inner = exc.args[0] if getattr(exc, 'args', None) else exc
+                e = getattr(inner, 'exception', inner)
+                n, a = exc_name(e)
+                out.append(['exc', n, repr(a)[:300], time.monotonic()])
+            else:
+                out.append(['ok', v, None, time.monotonic()])
+        done.set()
+    th = threading.Thread(target=drain, daemon=True)
+    th.start()
+    if not done.wait(timeout * 4 + 10):
+        return ['items', list(out) + [['stuck', None, None, time.monotonic()]]]
+    return ['items', out]
+
+
 def _get(pool, h, timeout):
     """h.get(timeout); without helper threads the caller is the event loop"""
     if not pool.threads:
@@ -596,6 +627,15 @@ def sc_worker_death(params, obs, save):
         items = [['i.%d' % i, 'none' if i != 1 else how, point] for i in range(3)]
         f = pool.imap if kind == 'imap' else pool.imap_unordered
         h = f(_maybe_kill, items, 1, lost_worker_timeout=T)
+        # when the parent processed the acknowledgement of the part that dies
+        # (recording wrapper on this handle only)
+        orig_ack = h._ack
+
+        def _ack(i, time_accepted, pid, *a):
+            if i == 1:
+                obs['accept_t'], obs['victim'] = time.monotonic(), pid
+            return orig_ack(i, time_accepted, pid, *a)
+        h._ack = _ack
     if external:
         _wait_for(lambda: 'accept' in cbs, 10)
         time.sleep(params.get('ext_delay', 0.2))
@@ -614,7 +654,7 @@ def sc_worker_death(params, obs, save):
         obs['t_resolved'] = time.monotonic()
         obs['outcome'] = _outcome(lambda: h.get(0)) if h.ready() else ['unresolved']
     else:
-        obs['outcome'] = _collect({'kind': kind}, h, wait)
+        obs['outcome'] = _collect_all(h, wait)
         obs['t_resolved'] = time.monotonic()
     obs['others'] = [_outcome(lambda o=o: o.get(20)) for o in others]
     # pool size restored (supervision period 0.8 s)
